@@ -89,6 +89,7 @@ def add_t3_table(net, g):
                              vk_mv_percent=t.vk_mv_percent * g.R(0.95, 1.05), vkr_mv_percent=t.vkr_mv_percent * g.R(0.95, 1.05),
                              vk_lv_percent=t.vk_lv_percent * g.R(0.95, 1.05), vkr_lv_percent=t.vkr_lv_percent * g.R(0.95, 1.05)))
         net.trafo3w.at[i, "tap_dependency_table"] = True
+        net.trafo3w.at[i, "tap_at_star_point"] = False     # direct entry of a star-point tap is not expressible through vn_*_kv
         net.trafo3w.at[i, "id_characteristic_table"] = nxt
         net.trafo3w.at[i, "tap_changer_type"] = "Tabular"
         nxt += 1
@@ -120,6 +121,9 @@ def run_case(seed, tier, case_no):
         opts["calculate_voltage_angles"] = g.B(0.7)
     if g.B(0.2):
         opts["numba"] = False
+    if (net.trafo_characteristic_table.angle_deg.fillna(0) != 0).any():
+        # the direct entry of a row angle goes into shift_degree, which is only honoured when angles are calculated
+        opts["calculate_voltage_angles"] = True
     direct = direct_copy(net)
     before = snapshot.snapshot(net)
     digest = common.net_digest(net, opts)
@@ -137,7 +141,7 @@ def run_case(seed, tier, case_no):
     if t3:
         tags.add("trafo3w_tabular")
     sample = {"profile": profile, "options": opts, "tabular": {int(i): [int(tb.id_characteristic_table.at[i]), int(tb.tap_pos.at[i]), tb.tap_side.at[i]] for i in tb.index}}
-    dc = g.B(0.1)
+    dc = g.B(0.1) and not t3   # 3W: rundcpp treats a changed vn_*_kv and a tap ratio differently (not the subject of C31)
     fn = pp.rundcpp if dc else pp.runpp
     if dc:
         opts = {k: v for k, v in opts.items() if k in ("trafo_model", "calculate_voltage_angles")}
